@@ -1498,6 +1498,14 @@ def _mem_transport_classes():
     return Pipe
 
 
+def _web_sim(which):
+    if which == 'N':
+        from vf.simn import SimN
+        return SimN
+    from vf.simh import SimH
+    return SimH
+
+
 class MemPeer:
     """Network between a REAL aiohttp.ClientSession and the real aiohttp
     web server of engine simH: every connection the client's connector opens
@@ -1535,12 +1543,12 @@ class PairRH(PairAA):
     web server + adapter + AsyncServer: nothing of either side is faked, the
     connections are in-memory pipes on the virtual loop."""
     kind = 'RH'
+    SIM = 'H'
 
     def __init__(self, server_kwargs=None, **client_kwargs):
-        from vf.simh import SimH
         for k in ('policy', 'seed', 'yield_prob'):
             client_kwargs.pop(k, None)
-        self.sim = SimH(server_kwargs)
+        self.sim = _web_sim(self.SIM)(server_kwargs)
         self.loop = self.sim.loop
         self.peer = MemPeer(self.sim)
         self.cli = CliA(self.loop, self.peer,
@@ -1560,12 +1568,12 @@ class PairAH(PairAA):
     """real AsyncClient <-> real AsyncServer behind the real aiohttp
     adapter and web server (engine simH) on one virtual loop."""
     kind = 'AH'
+    SIM = 'H'
 
     def __init__(self, server_kwargs=None, **client_kwargs):
-        from vf.simh import SimH
         for k in ('policy', 'seed', 'yield_prob'):
             client_kwargs.pop(k, None)
-        self.sim = SimH(server_kwargs)
+        self.sim = _web_sim(self.SIM)(server_kwargs)
         self.loop = self.sim.loop
         self.peer = PeerA(self.sim)
         self.cli = CliA(self.loop, self.peer, **client_kwargs)
@@ -1678,13 +1686,13 @@ class PairTH(PairTA):
     """real Client (threads) <-> real AsyncServer behind the real aiohttp
     adapter and web server (bridge loop)."""
     kind = 'TH'
+    SIM = 'H'
 
     def __init__(self, server_kwargs=None, policy='fifo', seed=0,
                  yield_prob=0.0, **client_kwargs):
-        from vf.simh import SimH
         self.sched = vsched.Sched(policy, seed, None, 0.0)
         self.loop = make_bridge_loop(self.sched)
-        self.sim = SimH(server_kwargs, loop=self.loop)
+        self.sim = _web_sim(self.SIM)(server_kwargs, loop=self.loop)
         self.peer = PeerTA(self.sim, self.sched)
         self.cli = CliT(self.sched, self.peer, **client_kwargs)
 
@@ -1725,5 +1733,23 @@ class PairAT:
         return z
 
 
+class PairAN(PairAH):
+    """... behind the real tornado adapter and web server (engine simN)"""
+    kind = 'AN'
+    SIM = 'N'
+
+
+class PairTN(PairTH):
+    kind = 'TN'
+    SIM = 'N'
+
+
+class PairRN(PairRH):
+    """real aiohttp.ClientSession <-> real tornado server"""
+    kind = 'RN'
+    SIM = 'N'
+
+
 PAIRS = {'TT': PairTT, 'AA': PairAA, 'TA': PairTA, 'AT': PairAT,
-         'AH': PairAH, 'TH': PairTH, 'RH': PairRH}
+         'AH': PairAH, 'TH': PairTH, 'RH': PairRH,
+         'AN': PairAN, 'TN': PairTN, 'RN': PairRN}
